@@ -204,6 +204,7 @@ def plan(tier, seed):
     shards += [('soup', L, k, optmode) for k in range(NSHARDS)]
     shards += [('docs', ndocs // NSHARDS, seed * 1000 + k, optmode) for k in range(NSHARDS)]
     shards += [('optvalues', k) for k in range(4)]
+    shards += [('inputs',)]
     shards += [('pairs', k, 1 if tier == 'quick' else 8) for k in range(NSHARDS)]
     if tier != 'quick':
         shards += [('fuzz', FUZZ_RUNS, seed * 100 + k + 1) for k in range(NSHARDS)]
@@ -216,7 +217,7 @@ def plan(tier, seed):
                        'soup_len': L, 'documents': ndocs},
             'required_classes': ['names:macro', 'names:environment', 'soup', 'doc',
                                  'opt:math_mode=remove', 'opt:fill_text=20',
-                                 'opt:keep_comments=True', 'optvalues', 'history', 'two-names']}
+                                 'opt:keep_comments=True', 'optvalues', 'history', 'two-names', 'input-files']}
 
 
 def convert(src, opts, res, case):
@@ -311,8 +312,62 @@ def two_name_sources(k, per_name):
             yield '\\' + n + _args(a, True).replace('{x}', '{' + y + '}', 1) + z
 
 
+INPUT_DOCS = ['\\input{a}', 'x \\include{b} y', '\\input a', '\\input{}', '\\input', '\\input{a',
+              '\\textbf{\\input{a}} $\\input{b}$', '\\input{nested}', '\\input{missing}']
+INPUT_FILES = {'a': 'A \\textbf{file} $x$', 'b': 'B %c\n \\begin{itemize}\\item z\\end{itemize}',
+               'nested': 'N \\input{a} \\input{b}', 'a.tex': 'A.tex', '': 'EMPTYNAME'}
+
+
+def run_inputs(res):
+    """\\input / \\include resolved (a) by a subclass overriding read_input_file(), the documented
+    extension point, without any call to set_tex_input_directory(); (b) from a directory"""
+    import os, shutil, tempfile, warnings
+    from pylatexenc.latex2text import LatexNodes2Text
+
+    class Sub(LatexNodes2Text):
+        def read_input_file(self, fn):
+            return INPUT_FILES.get(fn, '')
+    d = tempfile.mkdtemp(prefix='pvc07.')
+    try:
+        for n, c in INPUT_FILES.items():
+            if n:
+                open(os.path.join(d, n if '.' in n else n + '.tex'), 'w').write(c)
+        for o in pairwise_opts()[:8]:
+            for how in ('override', 'directory', 'directory-nonstrict'):
+                for src in INPUT_DOCS:
+                    res.case()
+                    case = {'kind': 'input', 'how': how, 'src': src, 'opts': o}
+                    try:
+                        with warnings.catch_warnings():
+                            warnings.simplefilter('ignore')
+                            if how == 'override':
+                                conv = Sub(**o)
+                            else:
+                                conv = LatexNodes2Text(**o)
+                                conv.set_tex_input_directory(d, strict_input=(how == 'directory'))
+                            with monitor.budget(len(src) + 200):
+                                out = conv.latex_to_text(src)
+                    except monitor.NonTermination as e:
+                        res.fail(monitor.nonterm_key(e), 'does not terminate on %r' % src, case)
+                        continue
+                    except Exception as e:
+                        res.fail(exc_key(e), exc_detail(e) + ' on %r (%s)' % (src, how), case)
+                        continue
+                    if not isinstance(out, str):
+                        res.fail('c07:not-a-string', repr(type(out)), case)
+                    if src == '\\input{a}' and 'file' not in out:
+                        res.label('input:content-not-included:' + how)
+                    res.nontriv((src, how, repr(o)))
+        res.label('input-files')
+    finally:
+        shutil.rmtree(d, ignore_errors=True)
+
+
 def run_shard(shard, res):
     kind = shard[0]
+    if kind == 'inputs':
+        run_inputs(res)
+        return
     if kind == 'optvalues':
         k = shard[1]
         for i, o in enumerate(EXTRA_OPTS):
@@ -391,6 +446,15 @@ def check_case(case, res):
         return
     if case['kind'] == 'history':
         run_history(case['history'], case['opts'], res)
+        return
+    if case['kind'] == 'input':
+        r2 = Result()
+        run_inputs(r2)
+        for key, l in r2.failures.items():
+            for f in l:
+                if f['case'].get('src') == case['src'] and f['case'].get('how') == case['how']:
+                    res.fail(key, f['detail'], case)
+        res.case()
         return
     src = case['src'] if case['kind'] == 'src' else ''.join(case['tokens'])
     convert(src, case['opts'], res, case)
